@@ -33,6 +33,13 @@ var ErrTimeout net.Error = timeoutErr{}
 // ErrClosed is returned by operations on a closed endpoint.
 var ErrClosed = errors.New("memnet: use of closed connection")
 
+// DeadlineRec is one SetReadDeadline / SetDeadline call as an endpoint saw it: the absolute time asked for (zero = none)
+// and how many Write calls the endpoint had made by then.
+type DeadlineRec struct {
+	T      time.Time
+	Writes int
+}
+
 // deadline belongs to an object protected by mu/cond of its owner.
 type deadline struct {
 	t     time.Time
@@ -209,6 +216,24 @@ type Conn struct {
 	r, w         *stream
 	laddr, raddr Addr
 	once         sync.Once
+	dlmu         sync.Mutex
+	dlog         []DeadlineRec
+}
+
+// ReadDeadlines returns every read deadline set on this end so far, in order.
+func (c *Conn) ReadDeadlines() []DeadlineRec {
+	c.dlmu.Lock()
+	defer c.dlmu.Unlock()
+	return append([]DeadlineRec(nil), c.dlog...)
+}
+
+// SetChunks replaces the chunking of the direction this end reads from and starts it afresh.
+func (c *Conn) SetChunks(chunks []int) {
+	c.r.mu.Lock()
+	c.r.sc.Chunks = chunks
+	c.r.chunkIdx = 0
+	c.r.cond.Broadcast()
+	c.r.mu.Unlock()
 }
 
 // Pipe returns the two ends of a buffered in-memory stream connection.
@@ -303,6 +328,12 @@ func (c *Conn) SetDeadline(t time.Time) error {
 }
 
 func (c *Conn) SetReadDeadline(t time.Time) error {
+	c.w.mu.Lock()
+	nw := c.w.nwrite
+	c.w.mu.Unlock()
+	c.dlmu.Lock()
+	c.dlog = append(c.dlog, DeadlineRec{t, nw})
+	c.dlmu.Unlock()
 	c.r.mu.Lock()
 	c.r.rd.set(t, &c.r.mu, c.r.cond)
 	c.r.mu.Unlock()
@@ -524,6 +555,14 @@ type DgramConn struct {
 	laddr, raddr net.Addr
 	send         func(data []byte)
 	nsent        int
+	dlog         []DeadlineRec
+}
+
+// ReadDeadlines returns every read deadline set on this endpoint so far, in order.
+func (d *DgramConn) ReadDeadlines() []DeadlineRec {
+	d.mu.Lock()
+	defer d.mu.Unlock()
+	return append([]DeadlineRec(nil), d.dlog...)
 }
 
 // NewDgramConn makes an endpoint whose outgoing datagrams are given to send.
@@ -608,6 +647,7 @@ func (d *DgramConn) SetDeadline(t time.Time) error { return d.SetReadDeadline(t)
 
 func (d *DgramConn) SetReadDeadline(t time.Time) error {
 	d.mu.Lock()
+	d.dlog = append(d.dlog, DeadlineRec{t, d.nsent})
 	d.rd.set(t, &d.mu, d.cond)
 	d.mu.Unlock()
 	return nil
